@@ -1,6 +1,6 @@
 (* Extraction of the hand-written executable model (ExtrOcamlBasic only). *)
 From Coq Require Import ZArith List Extraction ExtrOcamlBasic.
-From C14 Require PropagationModel Model Bodies.
+From C14 Require PropagationModel Model Bodies Crew.
 Separate Extraction
   PropagationModel.mkTraits PropagationModel.proxy_assign PropagationModel.native_proxy_assign
   PropagationModel.code_target_alloc PropagationModel.code_elementwise PropagationModel.std_target_alloc
@@ -14,4 +14,6 @@ Separate Extraction
   Model.v_create Model.v_move_assign Model.v_copy_assign Model.v_swap
   Model.cc_find Model.w_assign_ilist
   Bodies.s_copy Bodies.s_move_ctor Bodies.s_swap Bodies.abs Bodies.sb_items
-  Bodies.s_elementwise_body Bodies.s_copy_table Bodies.idx_shape Bodies.tree_shape.
+  Bodies.s_elementwise_body Bodies.s_copy_table Bodies.idx_shape Bodies.tree_shape
+  Crew.iset_new Crew.iset_move_ctor Crew.iset_swap Crew.iset_copy_ctor Crew.iset_move_assign Crew.iset_copy_assign
+  Crew.iset_find Crew.iset_insert Crew.coherent.
